@@ -197,6 +197,10 @@ func (c *xtsDecrypter) CryptBlocks(plaintext, ciphertext []byte) {
 		var tweaks []byte = make([]byte, batchSize)
 
 		for len(ciphertext) >= batchSize {
+			// a partial final block needs the last full block for ciphertext stealing
+			if remain := len(ciphertext) - batchSize; remain > 0 && remain < blockSize {
+				break
+			}
 			doubleTweaks(&c.tweak, tweaks, c.isGB)
 			subtle.XORBytes(plaintext, ciphertext, tweaks)
 			concCipher.DecryptBlocks(plaintext, plaintext)
